@@ -193,6 +193,7 @@ def gen_history(run_seed: int, cfg: dict) -> dict:
             which = r.choice(["all", "some", "some", "lib"])
             op = {"op": "REWRITE", "e": r.choice(handles), "which": which, "kind": r.choice(["func", "func", "source"])}
             if r.random() < 0.3:
+                op["kind"] = "source"  # (the callable for jax cannot be built here: jax is not installed)
                 op["backend"] = "jax"  # source for the other backend (jax itself is not installed: 'func' then fails loudly, identically everywhere)
             if which == "some":
                 op["fracs"] = [round(r.random(), 6) for _ in range(r.randint(1, 25))]
@@ -229,10 +230,19 @@ def gen_history(run_seed: int, cfg: dict) -> dict:
         if o.get("abort") is None:
             o.pop("abort", None)
     env = {"rglob_seed": r.randrange(1 << 30) if (faults and r.random() < 0.5) else None, "style": style}
+    strict_wanted = r.random() < 0.12
     import os
 
-    if r.random() < 0.12 or os.environ.get("VERIF_C14_FORCE_STRICT"):  # (env knob: soak the strict mode only)
-        env["np_strict"] = True  # the caller runs numpy in strict mode: numpy.seterr(divide/invalid/over = "raise")
+    if strict_wanted or os.environ.get("VERIF_C14_FORCE_STRICT"):  # (env knob: soak the strict mode only)
+        env["np_strict"] = True
+        # a strict-mode caller is interested in what a *rejected* call leaves behind
+        pos = r.randint(1, len(ops))
+        bad = {"op": "BADDATA", "e": handles[0], "pop": sorted(pops)[0], "fault": "bigint_float", "row": r.randrange(64), "form": r.choice(["frame", "dict"])}
+        ops.insert(pos, bad)
+        cp = mk_compute()
+        cp.pop("abort", None)
+        cp.pop("listfault", None)
+        ops.insert(pos + 1, cp)  # the caller runs numpy in strict mode: numpy.seterr(divide/invalid/over = "raise")
     return {"env": env, "pops": pops, "ops": ops}
 
 
